@@ -649,3 +649,129 @@ func CopyOf(t *Term) *Term { return mk("copyof", "", t) }
 
 // Addr builds addr(t): the address of the object whose content/designator is t.
 func Addr(t *Term) *Term { return mk("addr", "", t) }
+
+// Pretty renders an equivalent, minimised disjunctive normal form (Quine–McCluskey with a greedy cover)
+// for display; formulas over more than 10 atoms are printed as they are.
+func (f *Formula) Pretty() string {
+	am := f.Atoms()
+	atoms := make([]string, 0, len(am))
+	for a := range am {
+		atoms = append(atoms, a)
+	}
+	sort.Strings(atoms)
+	n := len(atoms)
+	if n == 0 {
+		return fmt.Sprint(f.Eval(nil))
+	}
+	if n > 10 {
+		return f.String()
+	}
+	type imp struct{ val, mask uint } // mask bit set = don't care
+	var minterms []uint
+	as := map[string]bool{}
+	for m := uint(0); m < 1<<uint(n); m++ {
+		for i, a := range atoms {
+			as[a] = m&(1<<uint(i)) != 0
+		}
+		if f.Eval(as) {
+			minterms = append(minterms, m)
+		}
+	}
+	if len(minterms) == 0 {
+		return "false"
+	}
+	if len(minterms) == 1<<uint(n) {
+		return "true"
+	}
+	cur := map[imp]bool{}
+	for _, m := range minterms {
+		cur[imp{m, 0}] = true
+	}
+	var primes []imp
+	for len(cur) > 0 {
+		next := map[imp]bool{}
+		used := map[imp]bool{}
+		list := make([]imp, 0, len(cur))
+		for x := range cur {
+			list = append(list, x)
+		}
+		for i := 0; i < len(list); i++ {
+			for j := i + 1; j < len(list); j++ {
+				a, b := list[i], list[j]
+				if a.mask != b.mask {
+					continue
+				}
+				d := a.val ^ b.val
+				if d != 0 && d&(d-1) == 0 {
+					next[imp{a.val &^ d, a.mask | d}] = true
+					used[a], used[b] = true, true
+				}
+			}
+		}
+		for _, x := range list {
+			if !used[x] {
+				primes = append(primes, x)
+			}
+		}
+		cur = next
+	}
+	covers := func(p imp, m uint) bool { return (m &^ p.mask) == p.val }
+	sort.Slice(primes, func(i, j int) bool {
+		if primes[i].mask != primes[j].mask {
+			return primes[i].mask > primes[j].mask
+		}
+		return primes[i].val < primes[j].val
+	})
+	left := map[uint]bool{}
+	for _, m := range minterms {
+		left[m] = true
+	}
+	var chosen []imp
+	for len(left) > 0 {
+		best, bestN := -1, 0
+		for i, p := range primes {
+			k := 0
+			for m := range left {
+				if covers(p, m) {
+					k++
+				}
+			}
+			if k > bestN {
+				best, bestN = i, k
+			}
+		}
+		if best < 0 {
+			break
+		}
+		chosen = append(chosen, primes[best])
+		for m := range left {
+			if covers(primes[best], m) {
+				delete(left, m)
+			}
+		}
+	}
+	var terms []string
+	for _, p := range chosen {
+		var lits []string
+		for i, a := range atoms {
+			bit := uint(1) << uint(i)
+			if p.mask&bit != 0 {
+				continue
+			}
+			if p.val&bit != 0 {
+				lits = append(lits, a)
+			} else {
+				lits = append(lits, "!"+a)
+			}
+		}
+		if len(lits) == 0 {
+			return "true"
+		}
+		terms = append(terms, strings.Join(lits, " && "))
+	}
+	sort.Strings(terms)
+	if len(terms) == 1 {
+		return terms[0]
+	}
+	return "(" + strings.Join(terms, ") || (") + ")"
+}
